@@ -107,6 +107,25 @@ theorem C12_reissue (s : State) (p : Nat) (e : Err) (w : Worker) (job : Job)
   rw [hs] at hl ⊢
   exact reissue_core s p e w job hw ha he1 he2 hl
 
+/-- **Success only through the last outstanding request finishing OK**
+(the part of `C12_success_all` that is proved for every state and event): a nil
+verdict for batch `b` is written only by the step in which a worker reports OK
+for the job it holds, that job is mapped to `b`, `b` is live and its remaining
+counter is exactly 1; the job is recorded as finished OK.  No timeout, wake,
+failure, cancellation, shutdown or late submission ever produces a nil verdict.
+
+NOT proved here (full `C12_success_all`: "a nil verdict implies EVERY request
+index of the batch is in `okd`"): that needs the accounting invariant
+`rem = number of the batch's jobs in queue ∪ active ∪ lost` with pairwise
+distinct job indices.  On every run the oracle clause `nil-without-all-ok`
+checks exactly that statement on the real dispatcher's observations. -/
+theorem C12_success_all_partial (s : State) (e : Ev) (b : Nat)
+    (h : Out.verdict b (.res .ok) ∈ (step s e).2) :
+    ∃ p w job bp, e = .result p .ok ∧ s.quit = false ∧ findW s.workers p = some w ∧ w.active = some job ∧
+      b = (s.queries.lookup job.idx).getD 0 ∧ findB s.batches b = some bp ∧ bp.rem = 1 ∧
+      job.idx ∈ (step s e).1.okd :=
+  step_ok_verdict s e b h
+
 /-! Non-vacuity: concrete histories that meet the hypotheses and exercise the branches. -/
 
 /-- two batches in flight, a retry, a stale wake, a fresh wake, shutdown, a late submission -/
@@ -127,6 +146,9 @@ example :
     s.quit = false ∧ offering s = false ∧
     findW s.workers 1 = some ⟨1, some ⟨0, 0, 0, 2⟩, false⟩ ∧
     (findB (step s (.result 1 .timeout)).1.batches 0).isSome = true := by decide
+/-- `C12_success_all_partial`: the step that writes batch 0's nil verdict, both requests finished -/
+example : Out.verdict 0 (.res .ok) ∈ (step (run init (demo.take 9)) (.result 1 .ok)).2 ∧
+    (run init (demo.take 10)).okd = [1, 0] := by decide
 /-- `C12_rank`: with two free workers of different score only the better one may accept -/
 example :
     let s := run init [.peer 1, .peer 2, .newBatch 1 false 2 false false, .accept 1, .result 1 .other]
